@@ -321,17 +321,90 @@ fn sweep() -> Vec<Case> {
     out
 }
 
+/// one long-lived server: hundreds of ordinary sequential transfers, then it must still serve (state that accumulates in the listener)
+#[derive(Clone, Debug, Serialize, Deserialize)]
+pub struct LongCase {
+    pub single: bool,
+    pub read_only: bool,
+    pub transfers: u32,
+    /// every k-th transfer is an upload (0 = downloads only)
+    pub upload_every: u32,
+    pub reuse_socket: bool,
+}
+
+pub fn judge_long(dir: &Path, c: &LongCase, obs: &mut Obs) -> Judge {
+    obs.class(if c.single { "long-lived-single-port" } else { "long-lived-multi-port" });
+    obs.nontrivial = c.transfers >= 100;
+    let sb = sandbox(dir);
+    let mut args = vec![wire::s("-sd"), sb.send.to_string_lossy().to_string(), wire::s("-rd"), sb.recv.to_string_lossy().to_string()];
+    if c.single {
+        args.push(wire::s("-s"));
+    }
+    if c.read_only {
+        args.push(wire::s("-r"));
+    }
+    let mut srv = match Server::start(&args, &sb.root) {
+        Ok(s) => s,
+        Err(_) => {
+            obs.inconclusive = Some("server did not start".into());
+            return Ok(());
+        }
+    };
+    let shared = Client::new();
+    for i in 0..c.transfers {
+        let fresh;
+        let cl = if c.reuse_socket {
+            &shared
+        } else {
+            fresh = Client::new();
+            &fresh
+        };
+        let upload = c.upload_every > 0 && i % c.upload_every == c.upload_every - 1 && !c.read_only;
+        let r = if upload {
+            let name = format!("u{}.bin", i);
+            match crate::wclient::start(cl, srv.addr, true, &name, &[], Duration::from_secs(3)) {
+                crate::wclient::Start::Accepted { neg, .. } => crate::wclient::upload(cl, &neg, b"payload of a small upload", None, &mut vec![]).map(|_| ()),
+                other => Err(format!("upload #{} not accepted: {:?}", i, other)),
+            }
+        } else {
+            probe_with(&mut srv, &sb.probe, cl)
+        };
+        if let Err(e) = r {
+            let tail = srv.stderr_tail();
+            viol!("server-stops-serving", "after {} ordinary sequential transfers the next valid request was not served: {}; stderr: {}", i, e, tail);
+        }
+    }
+    if let Some(st) = srv.exit_status() {
+        viol!("server-terminated", "tftpd exited ({}) during {} sequential transfers", st, c.transfers);
+    }
+    drop(srv);
+    let _ = std::fs::remove_dir_all(&sb.root);
+    Ok(())
+}
+
 pub fn run(ctx: &Ctx) {
-    ctx.set_rule("per case one fresh real tftpd process in {multi-port, single-port} x {read-only, writable} receives a generated sequence of 1-29 datagrams from up to 4 source sockets: requests with recognised option names in any case and boundary values (0,1,7,8,65464,65465,2^16,2^31,2^32,2^40,2^63,2^64-1,2^64,-1,+5,1e3,empty,400 digits), structure-aware mutations of valid packets, raw bytes, every opcode 0..8/0xFFFF with tails of 0..65505 bytes, non-request packets; plus a deterministic sweep option x boundary value x RRQ/WRQ x mode. Oracle: afterwards a canonical RRQ from a fresh socket and then from one of the sequence's own source sockets (retransmitted up to 5 times like a real client) is served with the correct DATA 1 and DATA 2 and the process is still running; failures are re-run once in isolation before they are reported. Non-trivial = the sequence contains a request with a recognised option or an undecodable datagram; distinct = distinct sequences.");
+    ctx.set_rule("per case one fresh real tftpd process in {multi-port, single-port} x {read-only, writable} receives a generated sequence of 1-29 datagrams from up to 4 source sockets: requests with recognised option names in any case and boundary values (0,1,7,8,65464,65465,2^16,2^31,2^32,2^40,2^63,2^64-1,2^64,-1,+5,1e3,empty,400 digits), structure-aware mutations of valid packets, raw bytes, every opcode 0..8/0xFFFF with tails of 0..65505 bytes, non-request packets; plus a deterministic sweep option x boundary value x RRQ/WRQ x mode. Oracle: afterwards a canonical RRQ from a fresh socket and then from one of the sequence's own source sockets (retransmitted up to 5 times like a real client) is served with the correct DATA 1 and DATA 2 and the process is still running; failures are re-run once in isolation before they are reported. A third part keeps one server alive through 700 (thorough 5000) ordinary sequential transfers (downloads and uploads, fresh or reused client socket) - every one must be served. Non-trivial = the sequence contains a request with a recognised option or an undecodable datagram; distinct = distinct sequences.");
     ctx.assume("resource exhaustion by volume (thousands of simultaneous requests) is outside the generated domain: at most 29 datagrams per fresh server");
     ctx.assume("datagrams the kernel drops because the listener's socket buffer is full simply do not belong to the delivered sequence");
     let dirs = DirPool::new(ctx, "c05");
     let cases = sweep();
     enumerate(ctx, "boundary-sweep", &cases, false, |c, o| dirs.with(|d| judge(d, c, o)));
+    let n = ctx.tier.pick(700u32, 5000u32);
+    let mut longs = vec![];
+    for single in [false, true] {
+        for reuse_socket in [false, true] {
+            longs.push(LongCase { single, read_only: false, transfers: n, upload_every: 3, reuse_socket });
+        }
+        longs.push(LongCase { single, read_only: true, transfers: n, upload_every: 0, reuse_socket: false });
+    }
+    enumerate(ctx, "long-lived-server", &longs, false, |c, o| dirs.with(|d| judge_long(d, c, o)));
     explore_n(ctx, "random", ctx.tier.pick(30_000, 600_000), shards(), 24, strategy, |c: &Case, o| dirs.with(|d| judge(d, c, o)));
 }
 
 pub fn replay(ctx: &Ctx, part: &str, case: &Value) -> bool {
     let dirs = DirPool::new(ctx, "c05");
+    if part == "long-lived-server" {
+        return replay_one(ctx, part, case, |c: &LongCase, o| dirs.with(|d| judge_long(d, c, o)));
+    }
     replay_one(ctx, part, case, |c: &Case, o| dirs.with(|d| judge(d, c, o)))
 }
